@@ -33,18 +33,19 @@ func r19_6(c *Ctx, r *Report) {
 			listOf := func(name string, full bool, foto bool) interface{} {
 				tag := "list@" + name
 				if _, ok := lm.elems[tag]; !ok {
-					lm.elems[tag] = []interface{}{}
+					var els []interface{}
 					if full {
 						for k := 1; k <= 2; k++ {
 							el := fmt.Sprintf("‹%s %d›", name, k)
 							wanted = append(wanted, el)
 							if foto {
-								lm.elems[tag] = append(lm.elems[tag], absPtr{el, false})
+								els = append(els, absPtr{el, false})
 							} else {
-								lm.elems[tag] = append(lm.elems[tag], el)
+								els = append(els, el)
 							}
 						}
 					}
+					lm.fill(tag, els...)
 				}
 				return absPtr{tag, false}
 			}
@@ -58,7 +59,17 @@ func r19_6(c *Ctx, r *Report) {
 					return x, true
 				}
 				// the object's own date fields: small distinct numbers
-				if rc, f, ok := getterField(c, v); ok && isOwn(fr, rc) && isIntType(v.Type()) {
+				ownOrWrapped := func(rc ssa.Value) bool {
+					if isOwn(fr, rc) {
+						return true
+					}
+					// the date the object wraps (a Buddhist date's lunar date)
+					if rc2, _, isF := getterField(c, rc); isF && isOwn(fr, rc2) {
+						return true
+					}
+					return false
+				}
+				if rc, f, ok := getterField(c, v); ok && isIntType(v.Type()) && ownOrWrapped(rc) {
 					for i, n := range []string{"year", "month", "day", "hour", "minute", "second"} {
 						if strings.HasSuffix(f, "."+n) {
 							return []int64{2023, 7, 9, 8, 5, 3}[i], true
